@@ -101,7 +101,14 @@ pub fn case_writer(ctx: &mut Ctx, max_write: &str, max_keep: &str, keep_age: &st
     let segs: Vec<Vec<usize>> = pads.split('|').map(|seg| seg.split(',').filter(|x| !x.is_empty()).map(|x| x.parse().unwrap()).collect()).collect();
     let obs = guard(move || {
         let dir = fresh_dir("c19w");
-        let prefix = dir.join("srv.log");
+        let relative = ex.starts_with('R');
+        let ex = ex.trim_start_matches('R').trim_start_matches(',').to_string();
+        let prefix = if relative { PathBuf::from("srv.log") } else { dir.join("srv.log") };
+        let orig_cwd = std::env::current_dir().unwrap();
+        // files with the same (length, age): which of them goes first is not determined; the survivors are shown under the
+        // highest of the group's numbers
+        let specs: Vec<&str> = ex.split(',').filter(|x| !x.is_empty()).collect();
+        let group_of = |k: usize| -> Vec<usize> { (0..specs.len()).filter(|j| specs[*j] == specs[k]).collect() };
         let now = SystemTime::now();
         for (k, f) in ex.split(',').filter(|x| !x.is_empty()).enumerate() {
             let (len, age) = f.split_once(':').unwrap();
@@ -146,6 +153,17 @@ pub fn case_writer(ctx: &mut Ctx, max_write: &str, max_keep: &str, keep_age: &st
             }
             old.sort();
             new.sort();
+            // relabel within groups of identical files
+            let ks: Vec<usize> = old.iter().map(|o| o.1[1..].parse::<usize>().unwrap()).collect();
+            let mut done_groups: Vec<Vec<usize>> = Vec::new();
+            for &k in &ks {
+                let g = group_of(k);
+                if g.len() < 2 || done_groups.contains(&g) { continue; }
+                let present: Vec<usize> = (0..old.len()).filter(|i| g.contains(&ks[*i])).collect();
+                let labels: Vec<usize> = g[g.len() - present.len()..].to_vec();
+                for (slot, label) in present.iter().zip(labels) { old[*slot].1 = format!("X{label}"); }
+                done_groups.push(g);
+            }
             (old, new)
         };
         let mut sizes = Vec::new();
@@ -153,11 +171,15 @@ pub fn case_writer(ctx: &mut Ctx, max_write: &str, max_keep: &str, keep_age: &st
         let mut n = 0u64;
         let mut done = true;
         for seg in &segs {
+            if relative { std::env::set_current_dir(&dir).unwrap(); }
             let mut w = LogFileWriter::new_builder(prefix.clone(), mk).with_max_write_bytes(mw);
             if ka > 0 {
                 w = w.with_max_keep_age(Duration::from_secs(ka));
             }
-            let sender = match w.start_writer_thread() { Ok(s) => s, Err(_) => return "start-failed".to_string() };
+            let started = w.start_writer_thread();
+            // the application changes its working directory once the writer runs: the log stays where it was started
+            if relative { std::env::set_current_dir("/").unwrap(); }
+            let sender = match started { Ok(s) => s, Err(_) => { let _ = std::env::set_current_dir(&orig_cwd); return "start-failed".to_string() } };
             peak = peak.max(total(&dir));
             let mut alive = true;
             for (i, pad) in seg.iter().enumerate() {
@@ -194,6 +216,7 @@ pub fn case_writer(ctx: &mut Ctx, max_write: &str, max_keep: &str, keep_age: &st
                 if let Ok(fh) = std::fs::File::options().write(true).open(&f.3) { let _ = fh.set_modified(base + Duration::from_millis(i as u64)); }
             }
         }
+        let _ = std::env::set_current_dir(&orig_cwd);
         let (old, new) = scan(&dir);
         let unrelated = std::fs::read(dir.join("unrelated.txt")).map(|b| b == b"keep").unwrap_or(false)
             && std::fs::metadata(dir.join("srv.log.archive").join("2020.gz")).map(|m| m.len() == 5000).unwrap_or(false)
@@ -249,6 +272,11 @@ pub fn run(ctx: &mut Ctx) {
             ages.push(age);
             format!("{}:{age}", rng.range(100, 90_000))
         }).collect();
+        // files restored from a backup or touched together: the same modification time (and, here, the same size) twice
+        let mut ex = ex;
+        if !ex.is_empty() && rng.chance(1, 3) { let d = ex[rng.below(ex.len() as u64) as usize].clone(); ex.push(d.clone()); if rng.chance(1, 2) { ex.push(d); } }
+        // every fifth run gives the writer a relative path prefix and changes the working directory once it runs
+        if k % 5 == 2 { ex.insert(0, "R".to_string()); }
         // every fourth run is short: a few small events that never rotate (retention must not wait for a rotation)
         let short = k % 4 == 1;
         let nev = if short { rng.range(1, 6) } else if ctx.thorough() && k % 50 == 7 { 20000 } else if ctx.thorough() && k % 10 == 0 { 4000 } else { rng.range(100, 700) };
